@@ -1,7 +1,8 @@
-import CTV.Gen.Retry
+import CTV.Model.RetrySpec
 /-!
 Hand model of `JSONClient.PostAndParseWithRetry`'s loop (jsonclient/client.go) around the regenerated kernels
-`Gen.backoffSet`, `Gen.waitDur`, `Gen.retryClass`, `Gen.retryAfterSeconds`. Time is a parameter (`Int` nanoseconds).
+`Gen.backoffSet`, `Gen.waitDur` and the reference table / arithmetic `Spec.retryClass`, `Spec.retryAfterSeconds`, which
+`Props/C13.lean` (`step_is_onResponse`) relates to the regenerated loop body `Gen.retryStep`. Time is a parameter (`Int` nanoseconds).
 Instants are unbounded `Int` nanoseconds since the Unix epoch (`T.add` exact, `T.sub` saturating like `time.Time.Sub`), so the
 zero `time.Time` of a fresh back-off is its true value, year 1.
 -/
@@ -28,13 +29,13 @@ deriving Repr, DecidableEq
 inductive Act | retOk | retErr | retCtx | retry
 deriving Repr, DecidableEq
 
-def classOf (st : Nat) : Nat := (Gen.retryClass.lookup st).getD Gen.retryClassDefault
+def classOf (st : Nat) : Nat := (Spec.retryClass.lookup st).getD Spec.retryClassDefault
 
 /-- the `override` passed to `backoff.set` for a 429/503 -/
 def overrideOf (now : Int) : RA → Option Int
   | .none => none
   | .junk => none
-  | .secs n => some (Gen.retryAfterSeconds n)
+  | .secs n => some (Spec.retryAfterSeconds n)
   | .date d => some (T.sub d now)
 
 def applySet (s : BState) (now : Int) (ov : Option Int) : Int × BState :=
